@@ -107,7 +107,9 @@ theorem enterPrecommit_ext (cfg : Config) (h r : Nat) (σ : State) : Ext σ (ent
   unfold enterPrecommit
   split
   · exact Ext.refl _
-  · exact (doPrecommit_ext cfg r σ).of_eq_right rfl rfl rfl
+  · split
+    · exact Ext.refl _
+    · exact (doPrecommit_ext cfg r σ).of_eq_right rfl rfl rfl
 
 theorem newHeight_ext (cfg : Config) (σ : State) : Ext σ (newHeight cfg σ) :=
   ⟨⟨[_], rfl⟩, NoNew_append_fresh _ _ _ _, rfl⟩
@@ -194,17 +196,23 @@ theorem newRoundPrep_ext (cfg : Config) (r : Nat) (σ : State) : Ext σ (newRoun
   · exact key _ rfl rfl rfl
   · exact key _ rfl rfl rfl
 
+theorem releaseStale_ext (cfg : Config) (σ : State) : Ext σ (releaseStale cfg σ) :=
+  Ext.of_eq (by simp) (by simp) (by simp)
+
 theorem enterNewRound_ext (cfg : Config) (nb : Option Nat) (h r : Nat) (σ : State) :
     Ext σ (enterNewRound cfg nb h r σ) := by
   unfold enterNewRound
   split
   · exact Ext.refl _
-  · simp only
-    split
-    · split
-      · exact (newRoundPrep_ext cfg r σ).trans (schedule_ext ..)
-      · exact newRoundPrep_ext ..
-    · exact (newRoundPrep_ext cfg r σ).trans (enterPropose_ext ..)
+  · split
+    · exact Ext.refl _
+    · have E := (newRoundPrep_ext cfg r σ).trans (releaseStale_ext cfg _)
+      simp only
+      split
+      · split
+        · exact E.trans (schedule_ext ..)
+        · exact E
+      · exact E.trans (enterPropose_ext ..)
 
 theorem setProposal_ext (cfg : Config) (src : Nat) (sigok : Bool) (h r pol id : Nat) (σ : State) :
     Ext σ (setProposal cfg src sigok h r pol id σ) := by
